@@ -11,7 +11,11 @@ tvars == <<tid, l>>
 Ev == Traces[tid].ev
 H  == Traces[tid].hdr
 
-EvOK(e) ==
+(* a request for channels that do not all exist (first channel c0, m channels, c0 + m > C, or a first-channel frequency that is
+   no channel's label) cannot "return the channels whose labels match": it is refused *)
+RefuseOK(e) == e.outcome = "ValueError"
+
+EvOK(e) == IF e.op = "read_block_refuse" THEN RefuseOK(e) ELSE
   LET o == e.obs  C == e.C IN
   /\ e.outcome = "ok"
   /\ o.nchans = (IF e.op \in {"collapse", "chan", "dedisp", "get_tim"} THEN 1 ELSE OutChans(e.op, e.p, C))
